@@ -59,6 +59,9 @@ check("C13","explicit-state over request histories: for every operation shape wi
 check("C14","explicit-state over handler histories: every sequence of <=4 (thorough <=6) Header/WriteHeader/Write/Flush calls x 4 document variants (constraint at operation level, path level, request body, document security) x request class x strict x custom/default callbacks x Flusher or not, through Validator.Middleware and the older ValidationHandler; the same handler run against the harness writer defines the intended response",
  "client writer mirrors net/http; response validity is ValidateResponse applied to the intended response; strict equality on (status, body)",
  "explicit-state exploration of handler-call histories on the real middleware with a differential oracle","3 C14")
+check("C17","bounded-exhaustive: a Swagger 2.0 skeleton plus every single feature (quick) / every compatible pair of features (thorough) out of ~110 feature instances; ToV3 must validate and keep the API-description normal form, FromV3(ToV3(d)) must keep it too and only use Swagger 2.0 reference locations; under both map orders",
+ "normal form mc/ref/apinf.go (fields without counterpart excluded; shared objects dereferenced; schema references by name)",
+ "bounded exhaustive enumeration of documents on the real converters against a normal-form model","3 C17")
 NA_REASON="check not built yet (work in progress; see DESIGN.md section 5)"
 m={"version":1,"setup_cmd":"bin/setup",
  "hooks":{"guard":"verif","enable":"go build -tags verif -overlay <generated> (bin/check does it on every invocation, regenerating the overlay from /repo's working tree)","baseline_off_cmd":"bin/baseline","source_commits":["4b7cd63"],"add_only":True},
